@@ -118,9 +118,9 @@ impl TypeRegistry {
                     .map(|ip| ip.join(name.into()))
                     .find(|ip| self.is_known(ip))
             })
-            // The name is bound now, regardless of what has been resolved so far;
-            // if it's bound to an item that has yet to be generated, we have to wait for it.
-            .filter(|ip| self.types.contains_key(ip))
+            // The name is bound now, regardless of what has been resolved so far. It may be
+            // bound to a vftable type that has yet to be generated: that is fine for a
+            // pointer or a signature, and anything that needs its size will wait for it.
             .map(Type::Raw)
     }
 
